@@ -1,1 +1,928 @@
-fn main() {}
+//! C07 — hash gadgets equal their reference functions on every message.
+
+mod fs;
+mod fscases;
+mod refs;
+mod zk;
+
+use std::{
+    collections::HashMap,
+    sync::{Arc, Mutex},
+    time::Instant,
+};
+
+use ff::Field;
+use fscases::{Filler, PoseidonVarCase, RipemdCase, SOp, ShaVarCase, SpongeCase};
+use midnight_circuits::{
+    hash::poseidon::{constants::PoseidonField, permutation_cpu, round_skips::PreComputedRoundCPU, PoseidonChip, PoseidonState},
+    instructions::{hash::HashCPU, SpongeCPU},
+};
+use midnight_proofs::transcript::TranscriptHash;
+use num_bigint::BigUint;
+use rand_core::RngCore;
+use refs::{ByteHash, Grain, PoseidonParams};
+use serde_json::json;
+use vcore::{catch, CaseOut, Ctx, Level, Viol};
+use vgad::{val::*, Judgement, OpCase, Outcome, F};
+use zk::{ZCase, ZIn};
+
+fn content(name: &str, len: usize, seed: u64, stream: &str) -> Vec<u8> {
+    match name {
+        "counter" => (0..len).map(|i| i as u8).collect(),
+        "zero" => vec![0; len],
+        "ff" => vec![0xFF; len],
+        "seeded" => {
+            let mut rng = vcore::rng_for(seed, &format!("c07-msg-{stream}-{len}"));
+            let mut v = vec![0u8; len];
+            rng.fill_bytes(&mut v);
+            v
+        }
+        _ => unreachable!(),
+    }
+}
+
+/// Published parameters as big integers, the S-box word of the partial rounds as implemented.
+fn published_params() -> PoseidonParams {
+    let rc = <F as PoseidonField>::ROUND_CONSTANTS;
+    let mds = <F as PoseidonField>::MDS;
+    PoseidonParams {
+        p: modulus(),
+        rc: rc.iter().map(|r| [to_big(&r[0]), to_big(&r[1]), to_big(&r[2])]).collect(),
+        mds: [
+            [to_big(&mds[0][0]), to_big(&mds[0][1]), to_big(&mds[0][2])],
+            [to_big(&mds[1][0]), to_big(&mds[1][1]), to_big(&mds[1][2])],
+            [to_big(&mds[2][0]), to_big(&mds[2][1]), to_big(&mds[2][2])],
+        ],
+        partial_word: refs::T - 1,
+    }
+}
+
+/// Phase A: regenerate the round constants and the MDS matrix from the Grain LFSR.
+fn check_constants(cx: &mut Ctx, params: &PoseidonParams) -> bool {
+    let p = &params.p;
+    let mut out = CaseOut::batch();
+    let mut g = Grain::new(1, 0, 255, refs::T as u32, refs::R_F as u32, refs::R_P as u32);
+    let n_rounds = refs::R_F + refs::R_P;
+    out.eval(if params.rc.len() == n_rounds { "round-count:68" } else { "round-count:other" }, true);
+    let mut regenerated: Vec<BigUint> = vec![];
+    for _ in 0..n_rounds * refs::T {
+        regenerated.push(g.field_element(255, p));
+    }
+    let mut mismatches = vec![];
+    for r in 0..n_rounds.min(params.rc.len()) {
+        for i in 0..refs::T {
+            let same = regenerated[r * refs::T + i] == params.rc[r][i];
+            out.eval(if same { "round-constant:equal" } else { "round-constant:differs" }, true);
+            if !same {
+                mismatches.push((r, i));
+            }
+        }
+    }
+    let prefix_ok = mismatches.iter().all(|(r, _)| *r >= 2) && !regenerated.is_empty();
+    let generator_validated = mismatches.is_empty() || prefix_ok;
+    if mismatches.is_empty() {
+        cx.note("Grain LFSR (field=1, sbox=0, n=255, t=3, R_F=8, R_P=60) regenerates all 204 round constants of constants/blstrs.rs element-wise");
+    } else if prefix_ok {
+        // the generator reproduces the first two rounds (6 x 255 bits) and then departs: the table is wrong
+        let (r, i) = mismatches[0];
+        out.viol(Viol::new(
+            "poseidon:round-constants:differ-from-grain-lfsr",
+            format!(
+                "ROUND_CONSTANTS[{r}][{i}] = 0x{} but the Grain LFSR of generate_parameters_grain.sage 1 0 255 3 8 60 p yields 0x{} ({} of 204 constants differ; the first {} match)",
+                params.rc[r][i].to_str_radix(16),
+                regenerated[r * refs::T + i].to_str_radix(16),
+                mismatches.len(),
+                r * refs::T + i
+            ),
+            json!({"round": r, "word": i}),
+        ));
+    } else {
+        cx.note(format!(
+            "the Grain-LFSR regeneration could NOT be validated ({} of 204 constants differ, already in the first rounds): ROUND_CONSTANTS are treated as given",
+            mismatches.len()
+        ));
+    }
+    // MDS: defining property + Cauchy candidate of the same stream
+    let minors = refs::all_minors_nonzero(&params.mds, p);
+    out.eval(if minors { "mds:all-minors-nonzero" } else { "mds:singular-minor" }, true);
+    if !minors {
+        out.viol(Viol::new("poseidon:mds:singular-minor", "the published MDS matrix has a zero square minor (it is not MDS)", json!({})));
+    }
+    if mismatches.is_empty() {
+        let mut found = None;
+        for cand in 0..16 {
+            let m = refs::next_cauchy(&mut g, 255, p);
+            let t: [[BigUint; 3]; 3] = std::array::from_fn(|i| std::array::from_fn(|j| m[j][i].clone()));
+            if m == params.mds {
+                found = Some((cand, false));
+                break;
+            }
+            if t == params.mds {
+                found = Some((cand, true));
+                break;
+            }
+        }
+        match found {
+            Some((c, transposed)) => {
+                out.eval("mds:is-lfsr-cauchy-candidate", true);
+                cx.note(format!(
+                    "MDS equals Cauchy candidate #{c} (0-based{}) of the LFSR stream that follows the round constants (1/(x_i+y_j), x,y = 6 integers of 255 bits reduced mod p)",
+                    if transposed { ", transposed" } else { "" }
+                ));
+                cx.extra("mds_cauchy_candidate_index", json!(c));
+            }
+            None => {
+                out.eval("mds:not-among-first-16-candidates", true);
+                cx.note("MDS is not among the first 16 Cauchy candidates of the LFSR stream (create_mds_p could not be matched); only the minor property was checked");
+            }
+        }
+    }
+    out.sample = Some(json!({"rc[0][0]": format!("0x{}", regenerated[0].to_str_radix(16)), "mismatches": mismatches.len()}));
+    cx.record("poseidon-constants", "grain-lfsr", out);
+    generator_validated
+}
+
+fn fvec(xs: &[F]) -> Vec<String> {
+    xs.iter().map(hex).collect()
+}
+
+/// Phase B: off-circuit Poseidon (HashCPU, SpongeCPU, transcript PoseidonState, permutation_cpu).
+fn cpu_cases(seed: u64, thorough: bool) -> Vec<(String, (Option<usize>, Vec<SOp>))> {
+    let mut rng = vcore::rng_for(seed, "c07-cpu");
+    let mut cases: Vec<(String, (Option<usize>, Vec<SOp>))> = vec![];
+    let elems = |n: usize, kind: usize, rng: &mut rand_chacha::ChaCha20Rng| -> Vec<F> {
+        (0..n)
+            .map(|i| match kind {
+                0 => F::ZERO,
+                1 => F::random(&mut *rng),
+                _ => -F::from(i as u64 + 1),
+            })
+            .collect()
+    };
+    // fixed-length hashing grid: lengths 0..=12 x {zero, seeded, near-p}
+    for len in 0..=12usize {
+        for kind in 0..3 {
+            let v = elems(len, kind, &mut rng);
+            cases.push((format!("fixed/len{len}/kind{kind}"), (Some(len), vec![SOp::Absorb(v), SOp::Squeeze])));
+        }
+    }
+    // fixed-length with the input split over two absorbs
+    for len in 0..=6usize {
+        for cut in 0..=len {
+            let v = elems(len, 1, &mut rng);
+            cases.push((format!("fixed-split/len{len}/cut{cut}"), (Some(len), vec![SOp::Absorb(v[..cut].to_vec()), SOp::Absorb(v[cut..].to_vec()), SOp::Squeeze])));
+        }
+    }
+    // transcript shape: 0..=4 absorbed vectors (lengths from a rotating pattern), then 1..=3 squeezes
+    let lens = [0usize, 1, 2, 3, 5];
+    for nv in 0..=4usize {
+        for rot in 0..lens.len() {
+            for ns in 1..=3usize {
+                let mut ops = vec![];
+                for j in 0..nv {
+                    ops.push(SOp::Absorb(elems(lens[(rot + j) % lens.len()], 1, &mut rng)));
+                }
+                for _ in 0..ns {
+                    ops.push(SOp::Squeeze);
+                }
+                cases.push((format!("transcript/vecs{nv}/rot{rot}/squeezes{ns}"), (None, ops)));
+            }
+        }
+    }
+    // every sequence over {A0,A1,A2,A3,S} up to depth 4 (5 in thorough)
+    let depth = if thorough { 5 } else { 4 };
+    let mut seqs: Vec<Vec<usize>> = vec![vec![]];
+    let mut frontier = seqs.clone();
+    for _ in 0..depth {
+        let mut next = vec![];
+        for s in &frontier {
+            for sym in 0..5usize {
+                let mut t = s.clone();
+                t.push(sym);
+                next.push(t);
+            }
+        }
+        seqs.extend(next.iter().cloned());
+        frontier = next;
+    }
+    for s in seqs.into_iter().filter(|s| s.contains(&4)) {
+        let name: String = s.iter().map(|x| if *x == 4 { "S".to_string() } else { format!("A{x}") }).collect();
+        let ops = s.iter().map(|x| if *x == 4 { SOp::Squeeze } else { SOp::Absorb(elems(*x, 1, &mut rng)) }).collect();
+        cases.push((format!("seq/{name}"), (None, ops)));
+    }
+    cases
+}
+
+fn run_cpu_case(params: &PoseidonParams, input_len: Option<usize>, ops: &[SOp]) -> CaseOut {
+    let mut out = CaseOut::batch();
+    let Some(expect) = fscases::model_sponge(params, input_len, ops) else {
+        out.eval("outside-domain", false);
+        return out;
+    };
+    let detail = json!({"input_len": input_len, "ops": ops.iter().map(|o| match o { SOp::Absorb(v) => json!({"absorb": fvec(v)}), SOp::Squeeze => json!("squeeze") }).collect::<Vec<_>>()});
+    // SpongeCPU
+    let got = catch(|| {
+        let mut st = <PoseidonChip<F> as SpongeCPU<F, F>>::init(input_len);
+        let mut outs = vec![];
+        for o in ops {
+            match o {
+                SOp::Absorb(v) => <PoseidonChip<F> as SpongeCPU<F, F>>::absorb(&mut st, v),
+                SOp::Squeeze => outs.push(<PoseidonChip<F> as SpongeCPU<F, F>>::squeeze(&mut st)),
+            }
+        }
+        outs
+    });
+    match got {
+        Ok(g) => {
+            let same = g.iter().map(to_big).collect::<Vec<_>>() == expect;
+            out.eval(if same { "sponge-cpu:equal" } else { "sponge-cpu:differs" }, true);
+            if !same {
+                out.viol(Viol::new(
+                    "poseidon:sponge-cpu:differs-from-plain-model",
+                    format!("SpongeCPU squeezes {:?} but the plain model gives {:?}", fvec(&g), expect.iter().map(|x| format!("0x{}", x.to_str_radix(16))).collect::<Vec<_>>()),
+                    detail.clone(),
+                ));
+            }
+        }
+        Err(p) => {
+            out.eval("sponge-cpu:panic", true);
+            out.viol(Viol::new("poseidon:sponge-cpu:panic", format!("SpongeCPU panicked on an admissible sequence: {p}"), detail.clone()));
+        }
+    }
+    // transcript hash (variable-length mode only: PoseidonState::init() = init(None))
+    if input_len.is_none() {
+        let got = catch(|| {
+            let mut st = <PoseidonState<F> as TranscriptHash>::init();
+            let mut outs = vec![];
+            for o in ops {
+                match o {
+                    SOp::Absorb(v) => <PoseidonState<F> as TranscriptHash>::absorb(&mut st, v),
+                    SOp::Squeeze => outs.push(<PoseidonState<F> as TranscriptHash>::squeeze(&mut st)),
+                }
+            }
+            outs
+        });
+        match got {
+            Ok(g) => {
+                let same = g.iter().map(to_big).collect::<Vec<_>>() == expect;
+                out.eval(if same { "transcript-hash:equal" } else { "transcript-hash:differs" }, true);
+                if !same {
+                    out.viol(Viol::new("poseidon:transcript-hash:differs-from-plain-model", format!("PoseidonState (TranscriptHash) squeezes {:?}, the plain model differs", fvec(&g)), detail.clone()));
+                }
+            }
+            Err(p) => {
+                out.eval("transcript-hash:panic", true);
+                out.viol(Viol::new("poseidon:transcript-hash:panic", format!("PoseidonState panicked on an admissible sequence: {p}"), detail.clone()));
+            }
+        }
+    }
+    // HashCPU on the concatenation (fixed-length mode, single squeeze)
+    if let Some(l) = input_len {
+        let all: Vec<F> = ops.iter().flat_map(|o| if let SOp::Absorb(v) = o { v.clone() } else { vec![] }).collect();
+        if all.len() == l {
+            match catch(|| <PoseidonChip<F> as HashCPU<F, F>>::hash(&all)) {
+                Ok(h) => {
+                    let same = to_big(&h) == expect[0];
+                    out.eval(if same { "hash-cpu:equal" } else { "hash-cpu:differs" }, true);
+                    if !same {
+                        out.viol(Viol::new("poseidon:hash-cpu:differs-from-plain-model", format!("HashCPU::hash = {} but the plain model gives 0x{}", hex(&h), expect[0].to_str_radix(16)), detail.clone()));
+                    }
+                }
+                Err(p) => {
+                    out.eval("hash-cpu:panic", true);
+                    out.viol(Viol::new("poseidon:hash-cpu:panic", format!("HashCPU::hash panicked: {p}"), detail));
+                }
+            }
+        }
+    }
+    out
+}
+
+/// One unit of circuit work of the sweep groups.
+#[derive(Clone)]
+enum Job {
+    /// ZkStdLib entry point, honest run only
+    Z(ZCase),
+    /// ZkStdLib entry point, honest + instance binding + exposed-value lies
+    ZFull(ZCase),
+    Rip(RipemdCase, bool),
+    ShaVar(ShaVarCase, bool),
+    PosVar(PoseidonVarCase, bool),
+    Sponge(SpongeCase, bool),
+}
+
+struct Shared {
+    /// k per circuit-size class (a hint: the honest run decides)
+    ks: Mutex<HashMap<String, u32>>,
+    /// (n_assign, untamperable, k) per case key, for the fault phase
+    sizes: Mutex<HashMap<String, (u64, u64, u32)>>,
+    /// digest seen per variable-length (op, max, data) class: must not depend on the filler
+    timings: Mutex<HashMap<String, (u64, f64)>>,
+}
+
+fn note_time(sh: &Shared, class: &str, t0: Instant) {
+    let mut t = sh.timings.lock().unwrap();
+    let e = t.entry(class.to_string()).or_insert((0, 0.0));
+    e.0 += 1;
+    e.1 += t0.elapsed().as_secs_f64();
+}
+
+fn z_honest_only(c: &ZCase, k: u32, out: &mut CaseOut) -> Option<vgad::RunOut> {
+    let run = vgad::run_once(c, k, vec![], false);
+    out.eval(&format!("honest:{}", run.outcome.name()), true);
+    let detail = json!({"case": c.key(), "k": k});
+    match &run.outcome {
+        Outcome::Sat => {
+            if let Judgement::Wrong(w) = c.judge(&run.ins, &run.outs) {
+                out.viol(Viol::new(format!("{}:honest-result-wrong", c.op()), format!("honest circuit is satisfied but its exposed result contradicts the reference: {w}"), detail));
+                return None;
+            }
+            Some(run)
+        }
+        o => {
+            let what = match o {
+                Outcome::Unsat(e) => format!("unsatisfiable: {e}"),
+                Outcome::SynthErr(e) => format!("synthesis error: {e}"),
+                Outcome::Panic(e) => format!("panic: {e}"),
+                Outcome::Sat => unreachable!(),
+            };
+            out.viol(Viol::new(format!("{}:completeness:{}", c.op(), o.name()), format!("honest witness for an admissible input is not accepted — {what}"), detail));
+            None
+        }
+    }
+}
+
+fn fs_job<C: fs::FsCase>(sh: &Shared, c: &C, full: bool, kclass: String, max_k: u32, out: &mut CaseOut) {
+    let t0 = Instant::now();
+    // k: start from the class hint, go up until the honest run is accepted
+    let hint = sh.ks.lock().unwrap().get(&kclass).copied();
+    let mut k = hint.unwrap_or(c.k_hint());
+    let mut found = None;
+    while k <= max_k {
+        let r = fs::run_once(c, k, vec![], false);
+        if r.outcome == Outcome::Sat {
+            found = Some(k);
+            break;
+        }
+        out.count(&format!("k-probe:{}", r.outcome.name()), 1);
+        k += 1;
+    }
+    let k = match found {
+        Some(k) => {
+            let mut ks = sh.ks.lock().unwrap();
+            let e = ks.entry(kclass.clone()).or_insert(k);
+            *e = (*e).min(k);
+            k
+        }
+        None => max_k,
+    };
+    let (n, unt) = if full {
+        let rep = fs::explore_honest(c, k, out);
+        (rep.n_assign, rep.untamperable)
+    } else {
+        let (run, _) = fs::honest_only(c, k, out);
+        (run.n_assign, run.untamperable)
+    };
+    out.counter("advice_assignments", n);
+    out.counter("untamperable_assignments", unt);
+    sh.sizes.lock().unwrap().insert(c.key(), (n, unt, k));
+    out.sample = Some(json!({"case": c.key(), "k": k, "assignments": n, "untamperable": unt, "full": full}));
+    note_time(sh, &format!("{}{}", kclass, if full { "/full" } else { "" }), t0);
+}
+
+fn run_job(sh: &Shared, j: &Job) -> CaseOut {
+    let mut out = CaseOut::batch();
+    match j {
+        Job::Z(c) | Job::ZFull(c) => {
+            let t0 = Instant::now();
+            let full = matches!(j, Job::ZFull(_));
+            let k = match vgad::min_k(c) {
+                Ok(k) => k,
+                Err(p) => {
+                    out.eval("k-panic", true);
+                    out.viol(Viol::new(format!("{}:sizing-panic", c.op()), format!("cost model / min_k panicked: {p}"), json!({"case": c.key()})));
+                    return out;
+                }
+            };
+            let (n, unt) = if full {
+                let rep = vgad::explore_honest(c, k, &mut out);
+                (rep.n_assign, rep.untamperable)
+            } else {
+                match z_honest_only(c, k, &mut out) {
+                    Some(r) => (r.n_assign, r.untamperable),
+                    None => (0, 0),
+                }
+            };
+            out.counter("advice_assignments", n);
+            out.counter("untamperable_assignments", unt);
+            sh.sizes.lock().unwrap().insert(c.key(), (n, unt, k));
+            out.sample = Some(json!({"case": c.key(), "k": k, "assignments": n, "untamperable": unt, "full": full}));
+            let blocks = match &c.input {
+                ZIn::Bytes(h, m) => m.len() / h.block(),
+                ZIn::Poseidon(x, _) => x.len(),
+            };
+            note_time(sh, &format!("{}/b{}/k{}{}", c.op(), blocks, k, if full { "/full" } else { "" }), t0);
+        }
+        Job::Rip(c, full) => fs_job(sh, c, *full, format!("ripemd160/b{}", (c.msg.len() + 8) / 64), 17, &mut out),
+        Job::ShaVar(c, full) => fs_job(sh, c, *full, format!("sha256_varlen/max{}/{}", c.max, c.filler.name()), 18, &mut out),
+        Job::PosVar(c, full) => fs_job(sh, c, *full, format!("poseidon_varlen/max{}/{}", c.max, c.filler.name()), 14, &mut out),
+        Job::Sponge(c, full) => fs_job(sh, c, *full, format!("poseidon_sponge/{}", c.shape()), 12, &mut out),
+    }
+    out
+}
+
+fn job_key(j: &Job) -> String {
+    match j {
+        Job::Z(c) => c.key(),
+        Job::ZFull(c) => format!("{}/full", c.key()),
+        Job::Rip(c, f) => format!("{}{}", fs::FsCase::key(c), if *f { "/full" } else { "" }),
+        Job::ShaVar(c, f) => format!("{}{}", fs::FsCase::key(c), if *f { "/full" } else { "" }),
+        Job::PosVar(c, f) => format!("{}{}", fs::FsCase::key(c), if *f { "/full" } else { "" }),
+        Job::Sponge(c, f) => format!("{}{}", fs::FsCase::key(c), if *f { "/full" } else { "" }),
+    }
+}
+
+/// Rough cost of a job (for longest-first scheduling inside a group).
+fn job_weight(j: &Job) -> u64 {
+    match j {
+        Job::Z(c) => match &c.input {
+            ZIn::Bytes(h, m) => (1 + m.len() / h.block()) as u64 * if matches!(h, ByteHash::Sha3_256 | ByteHash::Keccak256) { 8 } else { 2 },
+            ZIn::Poseidon(..) => 0,
+        },
+        Job::ZFull(c) => match &c.input {
+            ZIn::Bytes(h, m) => 100 + (m.len() + h.out_len()) as u64 * 4,
+            ZIn::Poseidon(x, _) => 1 + x.len() as u64,
+        },
+        Job::Rip(c, f) => (1 + c.msg.len() / 64) as u64 * 3 + if *f { 100 } else { 0 },
+        Job::ShaVar(c, f) => (c.max / 64 + 2) as u64 * 6 + if *f { 200 } else { 0 },
+        Job::PosVar(..) => 1,
+        Job::Sponge(..) => 1,
+    }
+}
+
+fn main() {
+    let mut cx = Ctx::from_args("C07", Level::FaultEnumeration);
+    cx.worker_rayon_threads = Some(1);
+    let seed = cx.seed;
+    let tier = cx.tier;
+    let thorough = tier.is_thorough();
+
+    // ---- anti-vacuity of the references themselves
+    for (name, ok) in refs::reference_kats() {
+        cx.require(ok, &format!("reference crate known-answer test {name}"));
+    }
+
+    // ---- phase A: parameters
+    let params = published_params();
+    let validated = check_constants(&mut cx, &params);
+    cx.extra("grain_generator_validated", json!(validated));
+    let params = Arc::new(params);
+
+    // the textbook places the partial-round S-box on word 0; the implementation documents word 2
+    {
+        let mut textbook = (*params).clone();
+        textbook.partial_word = 0;
+        let mut a = [BigUint::from(0u32), BigUint::from(1u32), BigUint::from(2u32)];
+        let mut b = a.clone();
+        params.permute(&mut a);
+        textbook.permute(&mut b);
+        cx.extra(
+            "partial_round_sbox_word",
+            json!({"implemented_and_modelled": 2, "poseidon_reference_script": 0, "permutations_differ_on_(0,1,2)": a != b}),
+        );
+        cx.note(
+            "round structure mirrored from circuits/src/hash/poseidon/mod.rs: width 3, rate 2, x^5, 4 full + 60 partial + 4 full rounds, \
+             round r = add ROUND_CONSTANTS[r], S-box layer, multiply by MDS (column vector). In the partial rounds the S-box acts on the LAST \
+             state word (index 2), as documented in poseidon/mod.rs, whereas the Poseidon paper / reference scripts (and the security filter \
+             of generate_parameters_grain.sage) put it on word 0: the implemented permutation is the textbook permutation for the relabelled \
+             parameter set (P*MDS*P^T, P*constants, P = word reversal) and is therefore not interoperable with other Poseidon instances \
+             using the same published constants. The plain model follows the implementation's documented convention.",
+        );
+    }
+    cx.note(format!(
+        "round-skip counts as compiled: NB_SKIPS_CIRCUIT = 5 (12 batched partial-round rows), NB_SKIPS_CPU = 2; rate {} width {} rounds {}+{}",
+        PoseidonChip::<F>::rate(),
+        PoseidonChip::<F>::register_size(),
+        PoseidonChip::<F>::nb_full_rounds(),
+        PoseidonChip::<F>::nb_partial_rounds()
+    ));
+    cx.require(
+        PoseidonChip::<F>::rate() == refs::RATE
+            && PoseidonChip::<F>::register_size() == refs::T
+            && PoseidonChip::<F>::nb_full_rounds() == refs::R_F
+            && PoseidonChip::<F>::nb_partial_rounds() == refs::R_P,
+        "the model's width/rate/round numbers equal the chip's",
+    );
+
+    cx.set_rule(
+        "(A) Poseidon parameters: all 204 round constants regenerated by a Grain LFSR and compared element-wise; MDS: every square minor non-zero, \
+         membership among the LFSR's Cauchy candidates. (B) off-circuit Poseidon: permutation_cpu on boundary/seeded states; SpongeCPU, HashCPU and the \
+         transcript's PoseidonState against a plain big-integer Poseidon on: every fixed length 0..=12 x {zero, seeded, near-p}, every split of lengths 0..=6 \
+         over two absorbs, 0..=4 absorbed vectors x 1..=3 squeezes, every operation sequence over {absorb 0/1/2/3 elements, squeeze} up to depth 4 (5 thorough). \
+         (C) in-circuit, honest run of the real chip inside MockProver with digest recomputed from the exposed inputs by sha2/sha3/ripemd/blake2b_simd/the plain \
+         Poseidon: SHA-256 every length 0..=192 (counter bytes; zero/FF at 55,56,63,64,119,120,127,128; thorough: zero/FF/seeded at every length), RIPEMD-160 \
+         the same lengths, SHA-512 {0,1,111,112,119,120,127,128,129,239,240,255,256} (thorough 0..=384), SHA3-256 and Keccak-256 {0,1,135,136,137,271,272,273} \
+         (thorough 0..=408), BLAKE2b-256/512 {0,1,127,128,129,255,256,257} (thorough 0..=384), Poseidon fixed length 0..=12 x {zero, seeded}; Poseidon sponge \
+         interface: every sequence over {absorb 0..3, squeeze} of depth <= 3 with a squeeze x {zero, seeded} plus fixed-length mode splits; variable-length \
+         Poseidon MAX in {8,12} x every length 0..=MAX x filler {zero, p-1, copy of data, seeded}; variable-length SHA-256 MAX in {64,128} x boundary lengths \
+         (thorough: every length 0..=MAX) x filler {zero, 0xFF, copy of data, seeded}. Small cases additionally get every single-position edit of the exposed \
+         vector and every exposed value changed together with its copy cycle. (D) 1-deviation faults in propagate mode: every advice assignment of Poseidon(2 \
+         inputs), of one variable-length Poseidon and one sponge case; SHA-256 one block on a deterministic stride (every assignment in thorough); strides for \
+         the other chips in thorough (printed in the notes). A case is one (entry point, length, content, filler); evaluations count reference comparisons and \
+         MockProver verdicts.",
+    );
+    cx.assume("MockProver (with the trash-argument evaluation added by the C02 fix) is the satisfiability oracle; its agreement with the real verifier is C02's subject");
+    cx.assume("prover freedom is bounded to <= 1 deviation from the honest witness generator (propagate mode) plus consistent lies about exposed values; for the large chips the deviation index is sampled on a printed deterministic stride");
+    cx.assume("the security filter of generate_parameters_grain.sage (algorithms 1-3 on the MDS candidates) is not re-implemented: MDS is checked to be an LFSR Cauchy candidate with non-zero minors");
+    cx.assume("RustCrypto sha2/sha3/ripemd and blake2b_simd are the reference functions (their known-answer tests are re-checked at start-up)");
+    cx.assume("variable-length inputs cannot be bound to the instance from outside the crate (AssignedVector fields are crate-private): their data is read back from the assigned cells' values, which follow propagated faults");
+
+    // ---- phase B: off-circuit Poseidon
+    {
+        // permutation_cpu vs plain permutation
+        let pre = PreComputedRoundCPU::<F>::init();
+        let mut rng = vcore::rng_for(seed, "c07-perm");
+        let mut states: Vec<(String, [F; 3])> = vec![
+            ("zero".into(), [F::ZERO; 3]),
+            ("ones".into(), [F::ONE; 3]),
+            ("p-1".into(), [-F::ONE; 3]),
+            ("e0".into(), [F::ONE, F::ZERO, F::ZERO]),
+            ("e1".into(), [F::ZERO, F::ONE, F::ZERO]),
+            ("e2".into(), [F::ZERO, F::ZERO, F::ONE]),
+            ("cap64".into(), [F::ZERO, F::ZERO, F::from_u128(1 << 64)]),
+        ];
+        for i in 0..tier.pick(64, 1024) {
+            states.push((format!("seeded{i}"), [F::random(&mut rng), F::random(&mut rng), F::random(&mut rng)]));
+        }
+        let pcases: Vec<(String, [F; 3])> = states;
+        let pr = params.clone();
+        cx.run_cases("poseidon-permutation-cpu", &pcases, |st| {
+            let mut out = CaseOut::batch();
+            let mut model = [to_big(&st[0]), to_big(&st[1]), to_big(&st[2])];
+            pr.permute(&mut model);
+            let mut s = *st;
+            match catch(|| permutation_cpu(&pre, &mut s)) {
+                Ok(()) => {
+                    let same = (0..3).all(|i| to_big(&s[i]) == model[i]);
+                    out.eval(if same { "equal" } else { "differs" }, true);
+                    if !same {
+                        out.viol(Viol::new("poseidon:permutation-cpu:differs-from-plain-model", format!("permutation_cpu({:?}) = {:?}, the plain 68-round permutation differs", fvec(st), fvec(&s)), json!({"state": fvec(st)})));
+                    }
+                }
+                Err(p) => {
+                    out.eval("panic", true);
+                    out.viol(Viol::new("poseidon:permutation-cpu:panic", format!("permutation_cpu panicked: {p}"), json!({"state": fvec(st)})));
+                }
+            }
+            out
+        });
+        let ccases = cpu_cases(seed, thorough);
+        let pr = params.clone();
+        cx.run_cases("poseidon-cpu", &ccases, |(il, ops)| run_cpu_case(&pr, *il, ops));
+    }
+
+    // ---- phase C: circuits
+    let sh = Shared {
+        ks: Mutex::new(HashMap::new()),
+        sizes: Mutex::new(HashMap::new()),
+        timings: Mutex::new(HashMap::new()),
+    };
+    let zbytes = |h: ByteHash, len: usize, c: &str| ZCase {
+        input: ZIn::Bytes(h, content(c, len, seed, h.name())),
+        content: c.to_string(),
+    };
+    let mut jobs: Vec<(String, Vec<Job>)> = vec![];
+
+    // SHA-256 / RIPEMD-160
+    {
+        let mut sha = vec![];
+        let mut rip = vec![];
+        let boundary = [55usize, 56, 63, 64, 119, 120, 127, 128];
+        for len in 0..=192usize {
+            let mut cs = vec!["counter"];
+            if thorough {
+                cs.extend(["zero", "ff", "seeded"]);
+            } else if boundary.contains(&len) {
+                cs.extend(["zero", "ff"]);
+            }
+            for c in cs {
+                sha.push(Job::Z(zbytes(ByteHash::Sha256, len, c)));
+                rip.push(Job::Rip(
+                    RipemdCase {
+                        msg: content(c, len, seed, "ripemd160"),
+                        content: c.to_string(),
+                    },
+                    false,
+                ));
+            }
+        }
+        sha.push(Job::ZFull(zbytes(ByteHash::Sha256, 1, "seeded")));
+        rip.push(Job::Rip(
+            RipemdCase {
+                msg: content("seeded", 1, seed, "ripemd160"),
+                content: "seeded".into(),
+            },
+            true,
+        ));
+        jobs.push(("sha2_256".into(), sha));
+        jobs.push(("ripemd160".into(), rip));
+    }
+    // the 128/136-byte block hashes
+    {
+        let sets: [(ByteHash, Vec<usize>, usize); 5] = [
+            (ByteHash::Sha512, vec![0, 1, 111, 112, 119, 120, 127, 128, 129, 239, 240, 255, 256], 384),
+            (ByteHash::Sha3_256, vec![0, 1, 135, 136, 137, 271, 272, 273], 408),
+            (ByteHash::Keccak256, vec![0, 1, 135, 136, 137, 271, 272, 273], 408),
+            (ByteHash::Blake2b256, vec![0, 1, 127, 128, 129, 255, 256, 257], 384),
+            (ByteHash::Blake2b512, vec![0, 1, 127, 128, 129, 255, 256, 257], 384),
+        ];
+        for (h, bset, all) in sets {
+            let mut v = vec![];
+            let lens: Vec<usize> = if thorough { (0..=all).collect() } else { bset.clone() };
+            for len in lens {
+                v.push(Job::Z(zbytes(h, len, "counter")));
+                if bset.contains(&len) && len > 0 {
+                    for c in ["zero", "ff", "seeded"] {
+                        if thorough || (c == "ff" && len % h.block() >= h.block() - 1) {
+                            v.push(Job::Z(zbytes(h, len, c)));
+                        }
+                    }
+                }
+            }
+            v.push(Job::ZFull(zbytes(h, 1, "seeded")));
+            jobs.push((h.name().to_string(), v));
+        }
+    }
+    // Poseidon: fixed length, sponge, variable length
+    {
+        let mut rng = vcore::rng_for(seed, "c07-poseidon-inputs");
+        let mut v = vec![];
+        for len in 0..=12usize {
+            for c in ["zero", "seeded"] {
+                if len == 0 && c == "seeded" {
+                    continue;
+                }
+                let xs: Vec<F> = (0..len).map(|_| if c == "zero" { F::ZERO } else { F::random(&mut rng) }).collect();
+                v.push(Job::ZFull(ZCase {
+                    input: ZIn::Poseidon(xs, params.clone()),
+                    content: c.to_string(),
+                }));
+            }
+        }
+        jobs.push(("poseidon".into(), v));
+
+        // sponge: sequences of depth <= 3 over {A0..A3, S} containing a squeeze
+        let mut v = vec![];
+        let mut seqs: Vec<Vec<usize>> = vec![];
+        for d in 1..=3usize {
+            let mut idx = vec![0usize; d];
+            loop {
+                seqs.push(idx.clone());
+                let mut i = 0;
+                loop {
+                    if i == d {
+                        break;
+                    }
+                    idx[i] += 1;
+                    if idx[i] < 5 {
+                        break;
+                    }
+                    idx[i] = 0;
+                    i += 1;
+                }
+                if i == d {
+                    break;
+                }
+            }
+        }
+        for s in seqs.into_iter().filter(|s| s.contains(&4)) {
+            for c in ["zero", "seeded"] {
+                if c == "seeded" && s.iter().all(|x| *x == 4 || *x == 0) {
+                    continue;
+                }
+                let ops: Vec<SOp> = s
+                    .iter()
+                    .map(|x| if *x == 4 { SOp::Squeeze } else { SOp::Absorb((0..*x).map(|_| if c == "zero" { F::ZERO } else { F::random(&mut rng) }).collect()) })
+                    .collect();
+                v.push(Job::Sponge(
+                    SpongeCase {
+                        input_len: None,
+                        ops,
+                        content: c.to_string(),
+                        params: params.clone(),
+                    },
+                    true,
+                ));
+            }
+        }
+        // fixed-length mode: every split of L = 0..=4 over two absorbs, then one squeeze
+        for l in 0..=4usize {
+            for cut in 0..=l {
+                let xs: Vec<F> = (0..l).map(|_| F::random(&mut rng)).collect();
+                v.push(Job::Sponge(
+                    SpongeCase {
+                        input_len: Some(l),
+                        ops: vec![SOp::Absorb(xs[..cut].to_vec()), SOp::Absorb(xs[cut..].to_vec()), SOp::Squeeze],
+                        content: format!("seeded-cut{cut}"),
+                        params: params.clone(),
+                    },
+                    true,
+                ));
+            }
+        }
+        jobs.push(("poseidon_sponge".into(), v));
+
+        let mut v = vec![];
+        for max in [8usize, 12] {
+            for len in 0..=max {
+                for c in ["zero", "seeded"] {
+                    if (c == "zero") && !(thorough || len == max || len == 1) {
+                        continue;
+                    }
+                    if len == 0 && c == "seeded" {
+                        // the empty vector has one content
+                    }
+                    let data: Vec<F> = (0..len).map(|_| if c == "zero" { F::ZERO } else { F::random(&mut rng) }).collect();
+                    for filler in Filler::ALL {
+                        v.push(Job::PosVar(
+                            PoseidonVarCase {
+                                max,
+                                data: data.clone(),
+                                content: c.to_string(),
+                                filler,
+                                seed,
+                                params: params.clone(),
+                            },
+                            true,
+                        ));
+                    }
+                }
+            }
+        }
+        jobs.push(("poseidon_varlen".into(), v));
+    }
+    // variable-length SHA-256
+    {
+        let mut v = vec![];
+        for (max, bset) in [(64usize, vec![0usize, 1, 54, 55, 56, 57, 63, 64]), (128, vec![0, 1, 55, 56, 63, 64, 65, 119, 120, 127, 128])] {
+            let lens: Vec<usize> = if thorough { (0..=max).collect() } else { bset };
+            for len in lens {
+                for filler in Filler::ALL {
+                    v.push(Job::ShaVar(
+                        ShaVarCase {
+                            max,
+                            data: content("seeded", len, seed, "shavar"),
+                            content: "seeded".into(),
+                            filler,
+                            seed,
+                        },
+                        false,
+                    ));
+                }
+            }
+        }
+        v.push(Job::ShaVar(
+            ShaVarCase {
+                max: 64,
+                data: content("counter", 3, seed, "shavar"),
+                content: "counter".into(),
+                filler: Filler::Seeded,
+                seed,
+            },
+            true,
+        ));
+        jobs.push(("sha256_varlen".into(), v));
+    }
+
+    for (group, mut js) in jobs {
+        js.sort_by_key(|j| std::cmp::Reverse(job_weight(j)));
+        let cases: Vec<(String, Job)> = js.into_iter().map(|j| (job_key(&j), j)).collect();
+        cx.run_cases(&group, &cases, |j| run_job(&sh, j));
+    }
+
+    // ---- phase D: 1-deviation faults
+    let sizes = sh.sizes.lock().unwrap().clone();
+    let all_faults = vgad::default_faults(seed);
+    let quick_faults: Vec<_> = all_faults.iter().filter(|(n, _)| ["+1", "zero", "1-v", "random"].contains(n)).cloned().collect();
+    #[derive(Clone)]
+    enum FJob {
+        /// case, k, indices, all 8 faults?
+        Z(ZCase, u32, Vec<u64>, bool),
+        PosVar(PoseidonVarCase, u32, Vec<u64>, bool),
+        Sponge(SpongeCase, u32, Vec<u64>, bool),
+        ShaVar(ShaVarCase, u32, Vec<u64>, bool),
+        Rip(RipemdCase, u32, Vec<u64>, bool),
+    }
+    let mut fjobs: Vec<(String, FJob)> = vec![];
+    let mut stride_notes: Vec<String> = vec![];
+    let mut add = |key: String, size: Option<(u64, u64, u32)>, stride: u64, chunk: usize, all: bool, mk: &dyn Fn(u32, Vec<u64>, bool) -> FJob| {
+        let Some((n, unt, k)) = size else {
+            stride_notes.push(format!("{key}: no accepted honest run available, fault exploration skipped"));
+            return;
+        };
+        let r = stride / 2;
+        let idxs: Vec<u64> = (0..n).filter(|i| i % stride == r).collect();
+        stride_notes.push(format!(
+            "{key}: N = {n} tamperable advice assignments ({unt} untamperable, k = {k}); indices i = {r} (mod {stride}) -> {} indices x {} fault values",
+            idxs.len(),
+            if all { 8 } else { 4 }
+        ));
+        for (ci, ch) in idxs.chunks(chunk).enumerate() {
+            fjobs.push((format!("{key}#{ci}"), mk(k, ch.to_vec(), all)));
+        }
+    };
+    let measure_z = |c: &ZCase| -> Option<(u64, u64, u32)> {
+        let k = vgad::min_k(c).ok()?;
+        let r = vgad::run_once(c, k, vec![], false);
+        (r.outcome == Outcome::Sat).then_some((r.n_assign, r.untamperable, k))
+    };
+    fn measure_fs<C: fs::FsCase>(c: &C, max_k: u32) -> Option<(u64, u64, u32)> {
+        let k = fs::min_k(c, max_k).ok()?;
+        let r = fs::run_once(c, k, vec![], false);
+        (r.outcome == Outcome::Sat).then_some((r.n_assign, r.untamperable, k))
+    }
+    {
+        // Poseidon with 2 inputs: every assignment, all 8 fault values
+        let mut rng = vcore::rng_for(seed, "c07-fault-inputs");
+        let c = ZCase {
+            input: ZIn::Poseidon(vec![F::random(&mut rng), F::random(&mut rng)], params.clone()),
+            content: "fault-seeded".into(),
+        };
+        add(c.key(), vcore::in_pool(1, || measure_z(&c)), 1, 8, true, &|k, i, a| FJob::Z(c.clone(), k, i, a));
+        // SHA-256, one block
+        let c = zbytes(ByteHash::Sha256, 3, "counter");
+        add(c.key(), sizes.get(&c.key()).copied(), tier.pick(29, 1), 6, thorough, &|k, i, a| FJob::Z(c.clone(), k, i, a));
+        // variable-length Poseidon, odd length (the last chunk has a filler slot)
+        let c = PoseidonVarCase {
+            max: 8,
+            data: (0..3).map(|_| F::random(&mut rng)).collect(),
+            content: "fault-seeded".into(),
+            filler: Filler::Zero,
+            seed,
+            params: params.clone(),
+        };
+        add(fs::FsCase::key(&c), vcore::in_pool(1, || measure_fs(&c, 14)), tier.pick(3, 1), 16, thorough, &|k, i, a| FJob::PosVar(c.clone(), k, i, a));
+        // sponge: absorb, squeeze twice, absorb, squeeze
+        let c = SpongeCase {
+            input_len: None,
+            ops: vec![SOp::Absorb(vec![F::random(&mut rng)]), SOp::Squeeze, SOp::Squeeze, SOp::Absorb(vec![F::random(&mut rng), F::random(&mut rng)]), SOp::Squeeze],
+            content: "fault-seeded".into(),
+            params: params.clone(),
+        };
+        add(fs::FsCase::key(&c), vcore::in_pool(1, || measure_fs(&c, 12)), 1, 16, thorough, &|k, i, a| FJob::Sponge(c.clone(), k, i, a));
+    }
+    if thorough {
+        for (h, stride) in [(ByteHash::Sha512, 97u64), (ByteHash::Sha3_256, 211), (ByteHash::Keccak256, 211), (ByteHash::Blake2b256, 211), (ByteHash::Blake2b512, 211)] {
+            let c = zbytes(h, 1, "seeded");
+            add(c.key(), sizes.get(&c.key()).copied(), stride, 4, false, &|k, i, a| FJob::Z(c.clone(), k, i, a));
+        }
+        let c = RipemdCase {
+            msg: content("seeded", 1, seed, "ripemd160"),
+            content: "seeded".into(),
+        };
+        add(fs::FsCase::key(&c), sizes.get(&fs::FsCase::key(&c)).copied(), 53, 4, false, &|k, i, a| FJob::Rip(c.clone(), k, i, a));
+        let c = ShaVarCase {
+            max: 64,
+            data: content("counter", 3, seed, "shavar"),
+            content: "counter".into(),
+            filler: Filler::Seeded,
+            seed,
+        };
+        add(fs::FsCase::key(&c), sizes.get(&fs::FsCase::key(&c)).copied(), 101, 4, false, &|k, i, a| FJob::ShaVar(c.clone(), k, i, a));
+    }
+    drop(add);
+    for n in &stride_notes {
+        cx.note(format!("fault indices — {n}"));
+    }
+    let pick = |all: &bool| if *all { &all_faults } else { &quick_faults };
+    cx.run_cases("faults", &fjobs, |j| {
+        let mut out = CaseOut::batch();
+        match j {
+            FJob::Z(c, k, idxs, all) => vgad::explore_faults(c, *k, idxs, pick(all), &mut out),
+            FJob::PosVar(c, k, idxs, all) => fs::explore_faults(c, *k, idxs, pick(all), &mut out),
+            FJob::Sponge(c, k, idxs, all) => fs::explore_faults(c, *k, idxs, pick(all), &mut out),
+            FJob::ShaVar(c, k, idxs, all) => fs::explore_faults(c, *k, idxs, pick(all), &mut out),
+            FJob::Rip(c, k, idxs, all) => fs::explore_faults(c, *k, idxs, pick(all), &mut out),
+        }
+        out
+    });
+
+    // ---- timings (evidence only)
+    {
+        let t = sh.timings.lock().unwrap();
+        let mut v: Vec<_> = t.iter().map(|(k, (n, s))| (k.clone(), *n, *s)).collect();
+        v.sort_by(|a, b| b.2.partial_cmp(&a.2).unwrap());
+        cx.extra("slowest_job_classes", json!(v.iter().take(12).map(|(k, n, s)| json!({"class": k, "jobs": n, "cpu_s": vcore::round3(*s)})).collect::<Vec<_>>()));
+    }
+    let unt = cx.counter_value("untamperable_assignments");
+    cx.note(format!("advice assignments whose value type is not the field (third-party chips; not reachable by the tamper hook), summed over all honest runs: {unt}"));
+
+    // ---- anti-vacuity
+    for g in ["sha2_256", "ripemd160", "sha2_512", "sha3_256", "keccak_256", "blake2b_256", "blake2b_512", "poseidon", "poseidon_sponge", "poseidon_varlen", "sha256_varlen"] {
+        let sat = cx.class_count(&format!("{g}:honest:sat"));
+        cx.require(sat > 0 || cx.remaining_s() <= 0.0, &format!("group {g} has at least one accepted honest run"));
+    }
+    cx.require(cx.class_count("faults:fault:unsat") > 100 || cx.remaining_s() <= 0.0, "faults must be rejected somewhere");
+    cx.require(cx.class_count("poseidon-cpu:sponge-cpu:equal") + cx.class_count("poseidon-cpu:sponge-cpu:differs") > 500, "the off-circuit grid was evaluated");
+    cx.finish()
+}
